@@ -10,7 +10,9 @@
                                          table-driven check of the number of arguments; result =
                                          list of (problem, directive name) with problem one of
                                          [unknown] (name not in the table: closed world, so that a new
-                                         directive is noticed) or [arity].  fctx = context of the file.
+                                         directive is noticed), [arity], or [value] (max_conns= /
+                                         max_fails= / weight= of an upstream server that is not a
+                                         decimal number).  fctx = context of the file.
      arity_ok_conf : string -> string -> bool      (file name, content)
      fctx_of_file : string -> fctx       CMain (file name ends in nginx.conf), CStream (contains
                                          stream-conf.d/), CMapBody (contains tls-passthrough-hosts),
@@ -238,10 +240,28 @@ Definition data_line_ok (d : directive) : list (string * string) :=
   | Dir n _ (Some _) => [("arity", "map-entry:" +++ n)]
   end.
 
+(* numeric parameters of an upstream [server ADDR ...;] line: NGINX parses them with ngx_atoi,
+   which accepts decimal digits only (a sign is an error: invalid parameter) *)
+Definition all_digits (s : string) : bool :=
+  negb (String.eqb s "") &&
+  forallb (fun c => Nat.leb 48 (nat_of_ascii c) && Nat.leb (nat_of_ascii c) 57) (list_ascii_of_string s).
+
+Definition server_param_errors (d : directive) : list (string * string) :=
+  match d with
+  | Dir n a None =>
+      if String.eqb n "server" then
+        flat_map (fun x =>
+                    flat_map (fun k => if starts_with k x && negb (all_digits (drop_prefix k x))
+                                       then [("value", "server " +++ x)] else [])
+                             ["max_conns="; "max_fails="; "weight="]) a
+      else []
+  | _ => []
+  end.
+
 Fixpoint arity_errors_d (d : directive) : list (string * string) :=
   match d with
   | Dir n a b =>
-      arity_of arity_table d ++
+      arity_of arity_table d ++ server_param_errors d ++
       match b with
       | None => []
       | Some ds =>
